@@ -305,7 +305,7 @@ func handleCAP(c *Client, e Event) {
 // a user. Traditionally, this was simply resolved with a quick QUIT and JOIN,
 // however CHGHOST resolves this in a much cleaner fashion.
 func handleCHGHOST(c *Client, e Event) {
-	if len(e.Params) != 2 {
+	if e.Source == nil || len(e.Params) != 2 {
 		return
 	}
 
@@ -322,6 +322,10 @@ func handleCHGHOST(c *Client, e Event) {
 // handleAWAY handles incoming IRCv3 AWAY events, for which are sent both
 // when users are no longer away, or when they are away.
 func handleAWAY(c *Client, e Event) {
+	if e.Source == nil {
+		return
+	}
+
 	c.state.Lock()
 	user := c.state.lookupUser(e.Source.Name)
 	if user != nil {
@@ -336,7 +340,7 @@ func handleAWAY(c *Client, e Event) {
 // different account. The account backend is handled server-side, so this
 // could be NickServ, X (undernet?), etc.
 func handleACCOUNT(c *Client, e Event) {
-	if len(e.Params) != 1 {
+	if e.Source == nil || len(e.Params) != 1 {
 		return
 	}
 
